@@ -85,6 +85,12 @@ def lexical(ctx, conv):
         # plain characters, optionally one entity escape at a symbolic position
         n = ctx.choice("n", [min(L, 2)] if QUICK[0] else list(range(1, min(L, 3) + 1)))
         s = ctx.str("s", n, NOAMP)
+        full_len = 300 if conv.length is None else conv.length
+        if full_len >= 12 and ctx.bool("full_length"):
+            # text of the full declared length (300 where undeclared): symbolic first and last characters around a filler
+            filler = ("The quick brown fox jumps over the lazy dog 0123456789 " * 8)[:full_len - n]
+            t = s[:1] + filler + s[1:]
+            return t, ("str", t)
         use_ent = (L > n) and ctx.bool("ent")
         if use_ent:
             e = ctx.choice("e", ENTS)
@@ -224,7 +230,7 @@ HARNESSES = dict(element=h_element, listpos=h_listpos)
 
 META = dict(
     bounds=dict(documents="the class's document (a valid instance holding the element) with one element text symbolic at a time",
-                texts="Y/N; sign + 1-4 digits; decimals <= 4 digits with '.' or ','; character data 1-3 chars over the printable alphabet "
+                texts="Y/N; sign + 1-4 digits; decimals <= 4 digits with '.' or ','; character data 1-3 chars over the printable alphabet and texts of the full declared length (300 where undeclared) with symbolic ends, "
                       "with one entity escape at a symbolic position; every enumeration token recorded in spec_enums.json (snapshot oracle, 48 token sets / 129 elements); 5 date-time / 3 time notation shapes with symbolic digits",
                 lists="3 members, symbolic position"),
     models=["instrumented from_etree/_convert/update_args/__init__/Element.__set__ + the converters of C09/C10"],
